@@ -8,6 +8,7 @@ CONSTANTS
   MaxLen = 9
   MinExport = 6
   Lit <- MCLit
+  LitDev <- MCLitDev
   Refs <- MCRefs
   Envs <- MCEnvs
 SPECIFICATION Spec
